@@ -1,4 +1,209 @@
-//! Stand-alone reproductions of the defects the check reports (`c13 --repro [name]`).
-pub fn run(_which: &str) {
-    println!("(filled in after triage)");
+//! Stand-alone reproductions of the defects the check reports: `c13 --repro [name|all]`.
+//! Each one uses only the public API of wow-m2 (plus the byte-level seed emitter where key
+//! frames are needed) and prints expected vs actual.
+use crate::{emit, walker};
+use std::io::Cursor;
+use wow_m2::anim::*;
+use wow_m2::chunks::texture::{M2Texture, M2TextureFlags, M2TextureType};
+use wow_m2::common::{C3Vector, FixedString, M2Array, M2ArrayString};
+use wow_m2::header::{M2Header, M2ModelFlags};
+use wow_m2::skin::{OldSkin, OldSkinHeader, Skin, SkinBatch, SkinFile, SkinHeader, SkinSubmesh};
+use wow_m2::{M2Model, M2Version};
+
+fn write(m: &M2Model) -> Result<Vec<u8>, String> {
+    let r = vcore::guarded(|| {
+        let mut c = Cursor::new(Vec::new());
+        m.write(&mut c).map(|_| c.into_inner()).map_err(|e| e.to_string())
+    });
+    match r {
+        Ok(x) => x,
+        Err((f, l, msg)) => Err(format!("PANIC at {f}:{l}: {msg}")),
+    }
+}
+
+fn texture_name() {
+    println!("--- texture-name: M2Model::write with a named texture");
+    for filler in [0usize, 4] {
+        let mut m = M2Model::default();
+        m.header = M2Header::new(M2Version::WotLK);
+        for i in 0..filler {
+            m.vertices.push(wow_m2::chunks::M2Vertex {
+                position: C3Vector { x: i as f32 + 1.0, y: 2.0, z: 3.0 },
+                bone_weights: [255, 0, 0, 0],
+                bone_indices: [0; 4],
+                normal: C3Vector { x: 0.0, y: 0.0, z: 1.0 },
+                tex_coords: wow_m2::common::C2Vector { x: 0.5, y: 0.5 },
+                tex_coords2: None,
+            });
+        }
+        m.textures.push(M2Texture {
+            texture_type: M2TextureType::Hardcoded,
+            flags: M2TextureFlags::empty(),
+            // as produced by the parser: count includes the NUL, data does not
+            filename: M2ArrayString { string: FixedString { data: b"a.blp".to_vec() }, array: M2Array::new(6, 1) },
+        });
+        match write(&m) {
+            Err(e) => println!("  {filler} vertices before the texture: write -> {e}   (expected: Ok)"),
+            Ok(b) => {
+                let p = M2Model::parse(&mut Cursor::new(&b)).unwrap();
+                println!(
+                    "  {filler} vertices before the texture: write Ok; parsed back name = {:?} (expected \"a.blp\"), vertex[2].position = {:?} (expected x=3.0,y=2.0,z=3.0)",
+                    String::from_utf8_lossy(&p.textures[0].filename.string.data),
+                    p.vertices.get(2).map(|v| v.position)
+                );
+            }
+        }
+    }
+    println!("  cause: model.rs write(): `base_data_offset = std::mem::size_of::<M2Header>()` ({} bytes, the in-memory struct) is used where the on-disk header size (304/324) is needed", std::mem::size_of::<M2Header>());
+}
+
+fn combiner_flag() {
+    println!("--- combiner-flag: header flag 0x8 survives, the field it announces is dropped");
+    let mut m = M2Model::default();
+    m.header = M2Header::new(M2Version::Cataclysm);
+    m.header.flags = M2ModelFlags::USE_TEXTURE_COMBINERS;
+    let b = write(&m).unwrap();
+    println!("  written {} bytes, flags dword = {:#x}; a header with the field needs {} bytes", b.len(), walker::u32at(&b, 16).unwrap(), walker::header_len(272, 8));
+    println!("  M2Model::parse(write(m)) = {:?}   (expected: Ok)", M2Model::parse(&mut Cursor::new(&b)).map(|_| ()).map_err(|e| e.to_string()));
+}
+
+fn seed_roundtrip(sections: &[&'static str], k: usize, variant: usize) -> (emit::Seed, Vec<u8>, Vec<u8>) {
+    let seed = emit::make_seed(256, sections, 1, k, variant);
+    let s = emit::emit(&seed);
+    let p0 = M2Model::parse(&mut Cursor::new(&s)).expect("seed parses");
+    let w1 = write(&p0).expect("write");
+    (seed, s, w1)
+}
+
+fn event_ranges() {
+    println!("--- event-ranges: parse→write of a Vanilla file with one event carrying 2 ranges + 1 timestamp");
+    let (seed, s, w1) = seed_roundtrip(&["events"], 1, 0);
+    let hs = walker::header(&s).unwrap();
+    let h1 = walker::header(&w1).unwrap();
+    println!("  seed file : {:?}", walker::event_arrays(&s, &hs).unwrap()[0]);
+    println!("  rewritten : {:?}", walker::event_arrays(&w1, &h1).unwrap()[0]);
+    println!("  expected  : ({:?}, {:?})", Some(&seed.events[0].0), Some(&seed.events[0].1));
+    println!("  cause: model.rs write(), EVENTS SECTION: the offset map and the running offset cover the timestamps only, but the ranges bytes are emitted in front of them");
+}
+
+fn embedded_batches() {
+    println!("--- embedded-skin-batches: parse→write of a Vanilla file with one embedded skin profile holding 1 batch (24 bytes)");
+    let (_seed, s, w1) = seed_roundtrip(&["views"], 1, 0);
+    let hs = walker::header(&s).unwrap();
+    let h1 = walker::header(&w1).unwrap();
+    let pv = |b: &[u8], h: &walker::Hdr| {
+        let p = h.pair("views").unwrap();
+        (walker::u32at(b, p.offset as usize + 32).unwrap(), walker::u32at(b, p.offset as usize + 36).unwrap())
+    };
+    println!("  seed file : batches (count, offset) = {:?}", pv(&s, &hs));
+    println!("  rewritten : batches (count, offset) = {:?}   (expected count 1)", pv(&w1, &h1));
+    println!("  cause: model.rs write(): `n_batches = skin.batches.len() / 96` while collect_embedded_skin_data reads 24 bytes per batch");
+}
+
+fn keyless_header() {
+    println!("--- keyless-track-header: bone whose tracks have interpolation=Linear, global sequence 0, no key frames");
+    let (_seed, s, w1) = seed_roundtrip(&["bones"], 0, 2);
+    let hs = walker::header(&s).unwrap();
+    let h1 = walker::header(&w1).unwrap();
+    let t = |b: &[u8], h: &walker::Hdr| {
+        let x = &walker::tracks(b, h, "bones").unwrap()[0][0];
+        (x.interp, x.gseq)
+    };
+    println!("  seed file : translation (interpolation, global sequence) = {:?}", t(&s, &hs));
+    println!("  rewritten : translation (interpolation, global sequence) = {:?}   (expected unchanged)", t(&w1, &h1));
+    println!("  cause: model.rs write(): when a section has no preserved key frames every track is replaced by `Default::default()`, header fields included");
+}
+
+fn skin_detect() {
+    println!("--- skin-layout-detection: old-layout skin with 3 indices");
+    let s = SkinFile::Old(OldSkin { header: OldSkinHeader::new(), indices: vec![0, 1, 2], triangles: vec![0, 1, 2], bone_indices: vec![], submeshes: vec![], batches: vec![] });
+    let mut c = Cursor::new(Vec::new());
+    s.write(&mut c).unwrap();
+    let b = c.into_inner();
+    println!("  OldSkin::parse   -> {:?}", OldSkin::parse(&mut Cursor::new(&b)).map(|x| x.indices));
+    println!("  SkinFile::parse  -> {:?}   (expected Old with indices [0, 1, 2])", SkinFile::parse(&mut Cursor::new(&b)).map(|x| (x.is_old_format(), x.indices().clone())).map_err(|e| e.to_string()));
+    println!("  cause: skin.rs detect_skin_format(): `second_field <= 4` takes the indices count of a small old-layout file for a version number");
+}
+
+fn skin_submesh() {
+    println!("--- skin-submesh-size: one submesh + one batch");
+    let sm = SkinSubmesh { id: 1, level: 0, vertex_start: 0, vertex_count: 3, triangle_start: 0, triangle_count: 3, bone_count: 1, bone_start: 0, bone_influence: 1, center: [1.0, 2.0, 3.0], sort_center: [4.0, 5.0, 6.0], bounding_radius: 7.0 };
+    let bt = SkinBatch { flags: 0x10, priority_plane: 0, shader_id: 0x11, skin_section_index: 0, geoset_index: 0, color_index: 0xFFFF, material_index: 1, material_layer: 0, texture_count: 1, texture_combo_index: 2, texture_coord_combo_index: 3, texture_weight_combo_index: 4, texture_transform_combo_index: 5 };
+    let s = Skin { header: SkinHeader::new(M2Version::Cataclysm), indices: vec![0, 1, 2, 3, 4, 5], triangles: vec![], bone_indices: vec![], submeshes: vec![sm], batches: vec![bt.clone()] };
+    let mut c = Cursor::new(Vec::new());
+    s.write(&mut c).unwrap();
+    let b = c.into_inner();
+    let p = Skin::parse(&mut Cursor::new(&b)).unwrap();
+    println!("  header: submeshes (count, offset) = ({}, {}), batches (count, offset) = ({}, {}); a submesh record is 48 bytes", p.header.submeshes.count, p.header.submeshes.offset, p.header.batches.count, p.header.batches.offset);
+    println!("  batch read back: {:?}\n  expected       : {:?}", p.batches[0], bt);
+    println!("  cause: skin.rs SkinG::write(): `current_offset += submeshes.len() * 40` although SkinSubmesh::write emits 48 bytes");
+}
+
+fn skin_bfa() {
+    println!("--- skin-bfa-center: new-layout version 4 header with centre position/bounds");
+    let mut h = SkinHeader::new(M2Version::BfA);
+    h.center_position = Some([1.0, 2.0, 3.0]);
+    h.center_bounds = Some(4.0);
+    let s = Skin { header: h, indices: vec![0, 1, 2, 3, 4, 5], triangles: vec![], bone_indices: vec![], submeshes: vec![], batches: vec![] };
+    let mut c = Cursor::new(Vec::new());
+    s.write(&mut c).unwrap();
+    let p = Skin::parse(&mut Cursor::new(c.into_inner())).unwrap();
+    println!("  parsed back centre = {:?} {:?}   (expected Some([1.0, 2.0, 3.0]) Some(4.0))", p.header.center_position, p.header.center_bounds);
+    println!("  cause: skin.rs SkinHeader::parse(): seeks to the end to learn the file size, then compares the size with the *new* stream position");
+}
+
+fn anim_files() {
+    println!("--- anim-legacy / anim-modern: one section, one bone with one translation key");
+    let bone = AnimBoneAnimation { bone_id: 5, translation: Some(AnimTranslation { timestamps: vec![0], translations: vec![C3Vector { x: 1.0, y: 2.0, z: 3.0 }] }), rotation: None, scaling: None };
+    let sec = AnimSection { header: AnimSectionHeader { magic: *b"AFID", id: 60, start: 0, end: 100 }, bone_animations: vec![bone] };
+    let legacy = AnimFile {
+        format: AnimFormat::Legacy,
+        sections: vec![sec.clone()],
+        metadata: AnimMetadata::Legacy { file_size: 0, animation_count: 1, structure_hints: LegacyStructureHints { appears_valid: true, estimated_blocks: 1, has_timestamps: false } },
+    };
+    let modern = AnimFile {
+        format: AnimFormat::Modern,
+        sections: vec![sec],
+        metadata: AnimMetadata::Modern { header: AnimHeader { magic: ANIM_MAGIC, version: 1, id_count: 1, unknown: 0, anim_entry_offset: 20 }, entries: vec![AnimEntry { id: 60, offset: 0, size: 0 }] },
+    };
+    for (n, a) in [("legacy", legacy), ("modern", modern)] {
+        let mut c = Cursor::new(Vec::new());
+        a.write(&mut c).unwrap();
+        let b = c.into_inner();
+        let r = AnimFile::parse(&mut Cursor::new(&b));
+        println!(
+            "  {n}: wrote {} bytes; parse -> {}   (expected: 1 section id 60 with 1 bone animation)",
+            b.len(),
+            match r {
+                Ok(p) => format!("{} section(s), ids {:?}, bone animations {:?}", p.sections.len(), p.sections.iter().map(|s| s.header.id).collect::<Vec<_>>(), p.sections.iter().map(|s| s.bone_animations.len()).collect::<Vec<_>>()),
+                Err(e) => format!("Err({e})"),
+            }
+        );
+    }
+    println!("  cause: anim.rs parse_legacy() is a placeholder (always one empty section with id 1); AnimSection::parse() derives the bone count from the entry size, which includes the key-frame payload");
+}
+
+pub fn run(which: &str) {
+    let all: [(&str, fn()); 10] = [
+        ("texture-name", texture_name),
+        ("combiner-flag", combiner_flag),
+        ("event-ranges", event_ranges),
+        ("embedded-skin-batches", embedded_batches),
+        ("keyless-track-header", keyless_header),
+        ("skin-layout-detection", skin_detect),
+        ("skin-submesh-size", skin_submesh),
+        ("skin-bfa-center", skin_bfa),
+        ("anim-legacy", anim_files),
+        ("anim-modern", anim_files),
+    ];
+    let mut done: Vec<usize> = vec![];
+    for (n, f) in all {
+        if which == "all" || which == n {
+            if done.contains(&(f as usize)) {
+                continue;
+            }
+            done.push(f as usize);
+            f();
+        }
+    }
 }
